@@ -1,4 +1,5 @@
 #include "yrun.hpp"
+#include <fcntl.h>
 #include <malloc.h>
 #include <unistd.h>
 
@@ -422,6 +423,12 @@ std::string Outcome::str() const {
   std::string s = tupleStr();
   s += " code=" + std::to_string(errcode) + " msg='" + errmsg + "'";
   return s;
+}
+
+extern "C" void __sanitizer_set_report_fd(void *fd);
+void reattachReports() {
+  if (fcntl(250, F_GETFD) != -1) __sanitizer_set_report_fd((void *)250L);
+  else __sanitizer_set_report_fd((void *)2L);
 }
 
 } // namespace vf
